@@ -544,7 +544,7 @@ func main() {
 
 func randOpts(rnd *rand.Rand, ill bool) OptSpec {
 	var o OptSpec
-	if rnd.Intn(4) != 0 {
+	if rnd.Intn(3) != 0 {
 		// the default option set most of the time
 		if rnd.Intn(10) == 0 {
 			o.NilOpts = true
@@ -558,7 +558,7 @@ func randOpts(rnd *rand.Rand, ill bool) OptSpec {
 	o.OmitDigest = rnd.Intn(3) == 0
 	o.OmitLink = rnd.Intn(3) == 0
 	o.WrapWriteError = rnd.Intn(4) == 0
-	if rnd.Intn(3) == 0 {
+	if rnd.Intn(2) == 0 {
 		l := &LocsSpec{Locs: []string{}}
 		switch rnd.Intn(5) {
 		case 0:
@@ -578,8 +578,18 @@ func fillHeaders(rnd *rand.Rand, r *ReqSpec, kind int) {
 	r.Body = someBodies[rnd.Intn(len(someBodies))]
 	switch kind {
 	case 1: // blob GET
-		if rnd.Intn(3) != 0 {
+		switch rnd.Intn(4) {
+		case 0:
+		case 1:
 			r.Range = pick(rnd, rangeHeaders)
+		default:
+			a := rnd.Intn(12)
+			switch rnd.Intn(4) {
+			case 0:
+				r.Range = fmt.Sprintf("bytes=%d-", a)
+			default:
+				r.Range = fmt.Sprintf("bytes=%d-%d", a, a+rnd.Intn(30))
+			}
 		}
 	case 8, 9: // PATCH / PUT upload
 		if rnd.Intn(3) != 0 {
@@ -657,7 +667,7 @@ func generate(cfg *hx.Config, rnd *rand.Rand,
 	addServe func(*ServeCase, *source, string), addParse func(*ParseCase, string),
 	addRange func(string), addRangeStr func(int64, int64)) {
 
-	nServe, nParse := 3600, 1500
+	nServe, nParse := 4000, 900
 	if cfg.Thorough() {
 		nServe, nParse = 40000, 20000
 	}
@@ -667,7 +677,7 @@ func generate(cfg *hx.Config, rnd *rand.Rand,
 	serve := func(m, p, q string, kind int, origin string) {
 		c := &ServeCase{Req: ReqSpec{Method: m, Path: p, RawQuery: q}}
 		fillHeaders(rnd, &c.Req, kind)
-		ill := rnd.Intn(25) == 0
+		ill := rnd.Intn(14) == 0
 		c.Opts = randOpts(rnd, ill)
 		if rnd.Intn(4) == 0 {
 			c.Req.Raw = rawRequest(&c.Req)
@@ -703,13 +713,13 @@ func generate(cfg *hx.Config, rnd *rand.Rand,
 	for i := 0; i < nServe; i++ {
 		kind := rnd.Intn(17)
 		switch k := rnd.Intn(100); {
-		case k < 50:
-			m, p, q := grammarRequest(rnd, kind, 4)
-			serve(m, p, q, kind, "grammar")
 		case k < 62:
+			m, p, q := grammarRequest(rnd, kind, 3)
+			serve(m, p, q, kind, "grammar")
+		case k < 71:
 			m, p, q := grammarRequest(rnd, kind, 45)
 			serve(m, p, q, kind, "grammar-bad-names")
-		case k < 88:
+		case k < 90:
 			m, p, q := grammarRequest(rnd, kind, 4)
 			for n := 1 + rnd.Intn(2); n > 0; n-- {
 				m, p, q = mutateLine(rnd, m, p, q)
@@ -724,9 +734,8 @@ func generate(cfg *hx.Config, rnd *rand.Rand,
 	for _, repo := range append(append([]string{}, goodRepos...), badRepos...) {
 		for _, last := range []string{digestOf(nil), "latest", "", "list", b64("id1")} {
 			for _, word := range []string{"blobs", "manifests", "tags", "referrers", "blobs/uploads", "uploads"} {
-				for _, m := range []string{"GET", "PUT", "POST"} {
-					addParse(&ParseCase{Method: m, Path: "/v2/" + repo + "/" + word + "/" + last}, "grid")
-				}
+				m := []string{"GET", "PUT", "POST", "DELETE", "HEAD", "PATCH"}[(len(repo)+len(last)+len(word))%6]
+				addParse(&ParseCase{Method: m, Path: "/v2/" + repo + "/" + word + "/" + last}, "grid")
 			}
 		}
 	}
